@@ -52,6 +52,8 @@ def gen_cases(tier, seed):
                 c.update(nc=rnd.choice([2, 3]), gap=rnd.choice([3, 30]), ratio=rnd.choice([1.0, 0.3]))
             if c["data"] == "dup":
                 c["copies"] = 2
+            if rnd.random() < 0.15:
+                c["xscale"] = rnd.choice([1e-6, 1e-3, 1e3, 1e6])  # the same data in another unit
         else:
             c.update(intw=rnd.choice([1, 1, 0]), components=rnd.choice([1, 1, 1, 2, 3]))
         # logical-step budget from the size: consolidate/cut loops make O((k + log N) N) steps per source, N sources per thread count
@@ -70,6 +72,8 @@ def gen_cases(tier, seed):
                  dseed=rnd.randrange(1 << 30), k=k, td=td, nm=rnd.choice(["brute", "vptree", "covertree"]), em="dense")
         if data == "clusters":
             c.update(nc=2, gap=4, ratio=0.5)
+        if rnd.random() < 0.15:
+            c["xscale"] = rnd.choice([1e-6, 1e-3, 1e3, 1e6])
         add(**c)
     return cases
 
